@@ -1,5 +1,5 @@
 """C10 — only genuine, matching timestamps are attached and they govern validity time.
-TLC: spec/Timestamp.tla (authorities in every order x 13 reply behaviours x cache modes) + 7 negative controls;
+TLC: spec/Timestamp.tla (authorities in every order x 15 reply behaviours x cache modes) + 7 negative controls;
 binding (A): every behaviour replayed on relic's real tsclient -> pkcs9.TimestampAndMarshal against harness-owned
 RFC 3161 authorities (own CMS encoder) and a fake memcached; verifier grid (all orderings of the validity windows,
 attested time and now; grafted countersignature) on relic's real chain validation."""
@@ -51,8 +51,8 @@ def run(t):
     run.add_tlc(v, f"verifier grid 0..{grid}")
     nv = len(v.beh)
     _feed(run, vh, "replay-tsverify", v.beh, "verify grid")
-    run.cov["rule"] = (f"client: all {nb} complete behaviours of {cfg} (1..N configured authorities each answering with one of 13 behaviours: "
-                       "valid, granted-with-mods, wrong/absent nonce, wrong imprint, rejected, waiting, bad token signature, no certificate, "
+    run.cov["rule"] = (f"client: all {nb} complete behaviours of {cfg} (1..N configured authorities each answering with one of 15 behaviours: "
+                       "valid, granted-with-mods, wrong/absent nonce, wrong imprint, rejected, waiting, non-granting status with a valid token, bad token signature, no certificate, "
                        "HTTP error, hang, garbage, trailing bytes; cache off/miss/good hit/garbage hit/hit for another signature) replayed "
                        "through tsclient.New -> pkcs9.TimestampAndMarshal; observed: authorities contacted in order, error vs emitted "
                        "signature, identity of the authority whose token was attached, chain verification of the result. "
